@@ -9,28 +9,22 @@ def sseed(seed, i):
     return (seed * 1000003 + i) % (1 << 62)
 
 
-def native_conc(prop, tier, seed, families, shards, budget_s, extra=None, label="conc", variant="native", base=0):
+def shard_jobs(prop, seed, engine_args, shards, budget_s, label, variant="native", base=0, extra=None, **kw):
     jobs = []
     for i in range(shards):
-        args = ["conc", "--families", ",".join(families), "--seed", str(sseed(seed, base + i)), "--runs", "100000000",
-                "--budget-ms", str(int(budget_s * 1000 * SCALE))]
+        args = list(engine_args) + ["--seed", str(sseed(seed, base + i)), "--runs", "100000000",
+                                    "--budget-ms", str(int(budget_s * 1000 * SCALE))]
         if extra:
-            args += extra[i % len(extra)] if isinstance(extra[0], list) else extra
-        jobs.append(dict(variant=variant, args=args, label="%s-%s-%s-%d" % (prop, label, variant, i),
-                         timeout=int(budget_s * SCALE) + 90))
+            args += extra[i % len(extra)]
+        j = dict(variant=variant, args=args, label="%s-%s-%s-%d" % (prop, label, variant, i),
+                 timeout=int(budget_s * SCALE) + 120)
+        j.update(kw)
+        jobs.append(j)
     return jobs
 
 
-def native_seq(prop, tier, seed, shards, budget_s, extra=None, label="seq", variant="native", base=100):
-    jobs = []
-    for i in range(shards):
-        args = ["seq", "--seed", str(sseed(seed, base + i)), "--runs", "100000000",
-                "--budget-ms", str(int(budget_s * 1000 * SCALE))]
-        if extra:
-            args += extra
-        jobs.append(dict(variant=variant, args=args, label="%s-%s-%s-%d" % (prop, label, variant, i),
-                         timeout=int(budget_s * SCALE) + 90))
-    return jobs
+def conc(prop, seed, families, shards, budget_s, label="conc", **kw):
+    return shard_jobs(prop, seed, ["conc", "--families", ",".join(families)], shards, budget_s, label, **kw)
 
 
 def seq_exhaustive(prop, seed, depth, shards, budget_s, extra=None):
@@ -40,60 +34,142 @@ def seq_exhaustive(prop, seed, depth, shards, budget_s, extra=None):
                 "--seed", str(sseed(seed, 200 + i)), "--budget-ms", str(int(budget_s * 1000 * SCALE))]
         if extra:
             args += extra
-        jobs.append(dict(variant="native", args=args, label="%s-exh-%d" % (prop, i), timeout=int(budget_s * SCALE) + 90))
+        jobs.append(dict(variant="native", args=args, label="%s-exh-%d" % (prop, i), timeout=int(budget_s * SCALE) + 120))
     return jobs
 
 
-def miri_job(prop, seed, label, args, seeds, timeout, tool_props, leaks=False, no_race=False, base=0):
+def miri(prop, seed, label, args, seeds, timeout, tool_props, leaks=False, no_race=False, base=0):
     a = (seed * 64 + base) % 1000000
-    return dict(variant="miri", args=args + ["--seed", "auto", "--small"], label="%s-%s-miri" % (prop, label),
-                miri_seeds=(a, a + seeds), timeout=timeout, tool_props=tool_props, leaks=leaks,
+    return dict(variant="miri", args=list(args) + ["--seed", "auto", "--small"], label="%s-%s-miri" % (prop, label),
+                miri_seeds=(a, a + seeds), timeout=int(timeout * SCALE), tool_props=tool_props, leaks=leaks,
                 no_race_detector=no_race)
 
 
-T = dict(quick=dict(native_s=18, shards=12, miri_seeds=6, miri_timeout=420),
-         thorough=dict(native_s=240, shards=14, miri_seeds=16, miri_timeout=2400))
+T = dict(quick=dict(s=15, n=12, miri_seeds=8, miri_timeout=600),
+         thorough=dict(s=240, n=14, miri_seeds=32, miri_timeout=3000))
 
-COMMON_ASSUME = [
+COMMON = [
     "only sequentially consistent schedules are judged (native x86-TSO runs; Miri with weak-memory emulation off)",
     "schedules are sampled, not enumerated: real threads with seeded delay/stall injection at the crate's hook points, plus Miri's randomised scheduler",
     "hook-reported positions are the crate's own claim/commit values and are cross-checked against the boundary history",
 ]
+SEQ_ASSUME = ["the reference model of DESIGN.md 4.3 is the specification", "single thread: no scheduling involved"]
+
+
+def P(level="exploration", q=50, t=500, workloads="", assumptions=None, **kw):
+    d = dict(level=level, min_nontrivial=dict(quick=q, thorough=t), workloads=workloads,
+             assumptions=assumptions if assumptions is not None else COMMON)
+    d.update(kw)
+    return d
+
 
 PROPS = {
-    "C01": dict(level="exploration", min_nontrivial=dict(quick=50, thorough=500), assumptions=COMMON_ASSUME,
-                workloads="mq-conc families steady, view, quiesce, teardown-orders (plain and futures handles, all entry points)"),
-    "C02": dict(level="exploration", min_nontrivial=dict(quick=50, thorough=500), assumptions=COMMON_ASSUME,
-                workloads="mq-conc families steady, view, quiesce with multi-producer stalls"),
-    "C03": dict(level="exploration", min_nontrivial=dict(quick=50, thorough=500), assumptions=COMMON_ASSUME,
-                workloads="mq-conc steady / view / remove-stream with slow consumers and stalls in the writer's scan; mq-seq capacity rule"),
-    "C06": dict(level="exploration", min_nontrivial=dict(quick=50, thorough=500), assumptions=COMMON_ASSUME,
-                workloads="quiescent probe after every mq-conc family, dedicated quiesce family"),
-    "C07": dict(level="exploration", min_nontrivial=dict(quick=50, thorough=500), assumptions=COMMON_ASSUME,
-                workloads="mq-conc last-sender"),
-    "C09": dict(level="exploration", min_nontrivial=dict(quick=200, thorough=2000), assumptions=[
-        "the reference model of DESIGN.md 4.3 is the specification", "single thread: no scheduling involved"],
-                workloads="mq-seq random sequences of 300 calls over all handle families + exhaustive enumeration of a reduced alphabet"),
+    "C01": P(workloads="mq-conc steady, view, quiesce, teardown-orders, handle-churn, last-sender (plain and futures handles, every receive entry point); Miri slice"),
+    "C02": P(workloads="mq-conc steady, view, quiesce, last-sender with multi-producer stalls (claimed-unpublished slots); Miri slice"),
+    "C03": P(workloads="mq-conc steady, view, remove-stream, wrap-slow-clone with slow consumers and stalls in the writer's scan; quiescent fill counts; Miri slice"),
+    "C04": P(workloads="mq-conc wrap-slow-clone and view with stalls inside clone / view closure; AddressSanitizer shards; Miri with the data-race detector (broadcast, mpmc single consumer)"),
+    "C05": P(q=100, workloads="mq-seq with every teardown permutation, mq-conc teardown-orders / no-receiver / steady, AddressSanitizer shards, Miri with leak checking; one shard exercises the open finding (two streams on a move-out queue)"),
+    "C06": P(workloads="quiescent probe after every mq-conc family; dedicated quiesce family"),
+    "C07": P(workloads="mq-conc last-sender (drops racing receives on shared and separate streams, blocking and non-blocking entry points)"),
+    "C08": P(q=50, workloads="mq-wake: consumers blocked in recv / recv_view / blocking iterators under Busy / Yielding / Blocking strategies with default and zero spins; Miri slice (deadlock detector)"),
+    "C09": P(q=200, t=2000, assumptions=SEQ_ASSUME, workloads="mq-seq random sequences of 300 calls over all eight handle families + exhaustive enumeration of a 14-command alphabet; Miri slice for UB on sequential paths"),
+    "C10": P(workloads="mq-conc add-stream-sole and add-stream-shared with stalls between snapshot and publication"),
+    "C11": P(workloads="mq-conc remove-stream (producers refused against a slow stream that is then removed) + mq-seq unsubscribe results"),
+    "C12": P(workloads="mq-conc handle-churn: senders 1->2->1, consumers of a stream 1->2->1 via clone/drop/unsubscribe/into_single/into_multi during traffic"),
+    "C13": P(q=50, workloads="mq-seq (every order of dropping receivers, all sender flavours), mq-conc no-receiver (last receiver leaves while producers send), mq-fut (sink parked while the last receiver is dropped)"),
+    "C14": P(q=50, workloads="mq-fut: sink and stream tasks polled only when notified, receivers draining through poll / direct methods / being dropped, probe-poll at quiescence"),
+    "C15": P(q=100, assumptions=COMMON + SEQ_ASSUME, workloads="mq-seq futures configurations (start_send/poll mixed with direct methods, fresh empty queues), mq-fut, mq-conc futures variants; own-step bound on poll/start_send"),
+    "C16": P(q=20, t=200, workloads="mq-churn stress under AddressSanitizer (sharded) and Miri; natively for volume",
+             assumptions=["AddressSanitizer detects stale accesses only while the freed block is in its quarantine; Miri has no such limit but sees fewer interleavings",
+                          "a run counts only if deferred frees were really executed while writers were scanning the stream list"]),
+    "C17": P(q=50, workloads="mq-churn teardown (exact live-byte accounting over scripted lives), growth (10^2..10^5 cycles), concurrent plateau measurements; LeakSanitizer; Miri leak check",
+             assumptions=["counting GlobalAlloc in the harness; a warm-up life with the same script precedes every measured one so lazily created process globals are excluded"]),
+    "C18": P(level="fault_enumeration", q=100, t=1000, workloads="mq-solo: all other threads frozen at hook sites, one try operation runs alone",
+             assumptions=["own steps are counted in hook sites passed; a spin that passes no hook site is caught by the thread's own CPU time (2 s, a correct try operation needs microseconds)",
+                          "freeze points are the crate's hook sites (between shared-memory operations), not every instruction"]),
+    "C19": P(level="other", q=2, t=2, workloads="mq-sendsync probe table",
+             explanation="C19 is a property of the type checker's answers. The check runs a probe that reads, for every public handle type instantiated with payload and closure classes (Send+Sync, Send-only, Sync-only, neither; fn pointer, boxed Send closure, boxed non-Send closure), whether the compiler considers it Send / Sync, and compares the table with the one the property prescribes. The positive direction is also exercised by the harness itself, which moves all twelve handle types between threads and would not build otherwise.",
+             assumptions=["autoref-free inherent-vs-trait method resolution reflects the trait solver's answer for concrete types",
+                          "instantiations the handle types' own bounds forbid cannot exist and are listed, not probed"]),
 }
+
+MIRI_UB = {"*": None}
 
 
 def jobs_for(prop, tier, seed):
     t = T[tier]
-    ns, nsec = t["shards"], t["native_s"]
+    n, s = t["n"], t["s"]
+    ms, mt = t["miri_seeds"], t["miri_timeout"]
     J = []
     if prop == "C01":
-        J += native_conc(prop, tier, seed, ["steady", "view", "quiesce", "teardown-orders", "handle-churn"], ns, nsec)
+        J += conc(prop, seed, ["steady", "view", "quiesce", "teardown-orders", "handle-churn", "last-sender"], n, s)
+        J.append(miri(prop, seed, "steady", ["conc", "--families", "steady,view", "--runs", "2", "--fl", "broadcast"], ms, mt, {"*": "C01,C04,C16"}))
     elif prop == "C02":
-        J += native_conc(prop, tier, seed, ["steady", "view", "quiesce", "last-sender"], ns, nsec,
-                         extra=[["--policy", "stall"], [], ["--policy", "yield"]])
+        J += conc(prop, seed, ["steady", "view", "quiesce", "last-sender"], n, s,
+                  extra=[["--policy", "stall"], [], ["--policy", "yield"]])
+        J.append(miri(prop, seed, "steady", ["conc", "--families", "steady", "--runs", "2"], ms, mt, {"*": "C02,C04,C16"}, no_race=True, base=7))
     elif prop == "C03":
-        J += native_conc(prop, tier, seed, ["steady", "view", "remove-stream", "wrap-slow-clone"], ns, nsec)
+        J += conc(prop, seed, ["steady", "view", "remove-stream", "wrap-slow-clone"], n, s)
+        J.append(miri(prop, seed, "steady", ["conc", "--families", "steady,wrap-slow-clone", "--runs", "2", "--fl", "broadcast"], ms, mt, {"*": "C03,C04,C16"}, base=11))
+    elif prop == "C04":
+        J += conc(prop, seed, ["wrap-slow-clone", "view", "wrap-slow-clone", "steady"], n - 4, s)
+        J += conc(prop, seed, ["wrap-slow-clone", "view"], 4, s, label="asan", variant="asan", base=50,
+                  tool_props={"*": "C04,C16"})
+        J.append(miri(prop, seed, "slowclone", ["conc", "--families", "wrap-slow-clone,view", "--runs", "2", "--fl", "broadcast"], ms + 4, mt, {"*": "C04"}, base=13))
+    elif prop == "C05":
+        J += shard_jobs(prop, seed, ["seq", "--perm-every", "3"], 4, s, "seq")
+        J += conc(prop, seed, ["teardown-orders", "no-receiver", "steady", "last-sender", "handle-churn"], n - 7, s)
+        J += conc(prop, seed, ["teardown-orders", "no-receiver"], 2, s, label="asan", variant="asan", base=50,
+                  tool_props={"*": "C05,C04,C16"})
+        J += shard_jobs(prop, seed, ["seq", "--p6", "--cfgs", "p6", "--perm-every", "0"], 1, 4, "seq-two-streams-on-mpmc", base=70)
+        J.append(miri(prop, seed, "seq", ["seq", "--runs", "2", "--len", "40", "--perm-every", "0"], ms, mt, {"*": "C05,C09", "miri-leak": "C05,C17"}, leaks=True, base=17))
     elif prop == "C06":
-        J += native_conc(prop, tier, seed, ["quiesce", "quiesce", "steady", "remove-stream", "handle-churn", "add-stream-sole",
-                                            "last-sender", "view", "wrap-slow-clone"], ns, nsec)
+        J += conc(prop, seed, ["quiesce", "quiesce", "steady", "remove-stream", "handle-churn", "add-stream-sole",
+                               "last-sender", "view", "wrap-slow-clone"], n, s)
     elif prop == "C07":
-        J += native_conc(prop, tier, seed, ["last-sender"], ns, nsec)
+        J += conc(prop, seed, ["last-sender"], n, s)
+        J.append(miri(prop, seed, "lastsender", ["conc", "--families", "last-sender", "--runs", "2"], ms, mt, {"*": "C07,C04,C16", "miri-deadlock": "C08"}, no_race=True, base=19))
+    elif prop == "C08":
+        J += shard_jobs(prop, seed, ["wake"], n, s, "wake")
+        J.append(miri(prop, seed, "wake", ["wake", "--runs", "2"], ms, mt, {"*": "C08", "miri-deadlock": "C08"}, no_race=True, base=23))
     elif prop == "C09":
-        J += native_seq(prop, tier, seed, max(4, ns - 6), nsec)
-        J += seq_exhaustive(prop, seed, 5 if tier == "quick" else 6, 6 if tier == "quick" else 16, nsec * (1 if tier == "quick" else 3))
+        J += shard_jobs(prop, seed, ["seq"], max(4, n - 6), s, "seq", base=100)
+        J += seq_exhaustive(prop, seed, 5 if tier == "quick" else 6, 6 if tier == "quick" else 16, s * (1 if tier == "quick" else 3))
+        J.append(miri(prop, seed, "seq", ["seq", "--runs", "3", "--len", "50", "--perm-every", "0"], ms, mt, {"*": "C09"}, base=29))
+    elif prop == "C10":
+        J += conc(prop, seed, ["add-stream-sole"], n // 2, s)
+        J += conc(prop, seed, ["add-stream-shared"], n - n // 2, s, label="shared", base=40)
+    elif prop == "C11":
+        J += conc(prop, seed, ["remove-stream"], n - 2, s)
+        J += shard_jobs(prop, seed, ["seq", "--cfgs", "broadcast"], 2, s, "seq", base=100)
+    elif prop == "C12":
+        J += conc(prop, seed, ["handle-churn"], n, s)
+        J.append(miri(prop, seed, "churn", ["conc", "--families", "handle-churn", "--runs", "2", "--fl", "broadcast"], ms, mt, {"*": "C12,C04,C16"}, base=31))
+    elif prop == "C13":
+        J += shard_jobs(prop, seed, ["seq"], 4, s, "seq", base=100)
+        J += conc(prop, seed, ["no-receiver"], 4, s)
+        J += shard_jobs(prop, seed, ["fut"], n - 8, s, "fut", base=60)
+    elif prop == "C14":
+        J += shard_jobs(prop, seed, ["fut"], n, s, "fut")
+        J.append(miri(prop, seed, "fut", ["fut", "--runs", "2"], ms, mt, {"*": "C14"}, no_race=True, base=37))
+    elif prop == "C15":
+        J += shard_jobs(prop, seed, ["seq", "--cfgs", "fut"], 4, s, "seq", base=100)
+        J += shard_jobs(prop, seed, ["fut"], 4, s, "fut", base=60)
+        J += conc(prop, seed, ["steady", "view", "last-sender", "quiesce"], n - 8, s, extra=[["--fut", "1"]])
+    elif prop == "C16":
+        J += shard_jobs(prop, seed, ["churn", "--mode", "stress"], n - 4, s, "stress-asan", variant="asan",
+                        tool_props={"*": "C16"})
+        J += shard_jobs(prop, seed, ["churn", "--mode", "stress"], 4, s, "stress", base=30)
+        J.append(miri(prop, seed, "stress", ["churn", "--mode", "stress", "--runs", "1"], ms, mt, {"*": "C16"}, base=41))
+    elif prop == "C17":
+        J += shard_jobs(prop, seed, ["churn", "--mode", "teardown"], 4, s, "teardown")
+        J += shard_jobs(prop, seed, ["churn", "--mode", "growth"], 5, s, "growth", base=20)
+        J += shard_jobs(prop, seed, ["churn", "--mode", "stress", "--measure-growth"], 3, s, "concurrent", base=40)
+        J += shard_jobs(prop, seed, ["churn", "--mode", "stress"], 2, s, "lsan", variant="asan", base=50, leaks=True,
+                        tool_props={"asan-detected": "C17", "*": "C17,C16"})
+        J.append(miri(prop, seed, "leaks", ["seq", "--runs", "2", "--len", "40", "--perm-every", "0"], ms, mt, {"miri-leak": "C17", "*": "C09"}, leaks=True, base=43))
+    elif prop == "C18":
+        J += shard_jobs(prop, seed, ["solo"], n, s, "solo")
+    elif prop == "C19":
+        J.append(dict(variant="native", args=["sendsync"], label="C19-sendsync", timeout=120))
     return J
